@@ -269,6 +269,16 @@ def run(ctx):
     # ---- minimisers ----------------------------------------------------------------------------------------------------
     mins = dict(SteepestDescent=lambda c, l: ift.SteepestDescent(c, l), L_BFGS=lambda c, l: ift.L_BFGS(c, l, max_history_length=3), VL_BFGS=lambda c, l: ift.VL_BFGS(c, l, max_history_length=3),
                 NewtonCG=lambda c, l: ift.NewtonCG(c, line_searcher=l), RelaxedNewton=lambda c, l: ift.RelaxedNewton(c, l))
+
+    def nlcg(heur):
+        def mk(c, l):
+            m = ift.NonlinearCG(c, heur)
+            l.c2 = m._line_searcher.c2               # the minimiser's own line-search parameters, through the recording line searcher
+            m._line_searcher = l
+            return m
+        return mk
+    for heur in ("Polak-Ribiere", "Fletcher-Reeves", "Hestenes-Stiefel", "5.49"):
+        mins["NonlinearCG(%s)" % heur] = nlcg(heur)
     mtr, mmeta = [], []
     nruns = 5 if q else 30
     with quiet():
@@ -276,7 +286,7 @@ def run(ctx):
             for kind, mk in mins.items():
                 for r_ in range(nruns):
                     x0 = rng.uniform(-1.5, 1.5, 3)
-                    sab = None if r_ % 3 else ((r_ // 3) % 3 + 1, "higher" if (r_ // 3) % 2 == 0 else "equal")
+                    sab = None if (r_ % 3 or kind.startswith("NonlinearCG")) else ((r_ // 3) % 3 + 1, "higher" if (r_ // 3) % 2 == 0 else "equal")
                     ev, err, wolfe_bad = min_trace(ift, FEnergy, name, fn, x0, mk, kind, sab)
                     ctx.case(("min", name, kind, r_))
                     meta = dict(function=name, minimiser=kind, x0=x0.tolist())
@@ -285,6 +295,15 @@ def run(ctx):
                                       replay=dict(what="min", **meta))
                     if err:
                         ctx.add_drift("%s on %s raised %s" % (kind, name, err))
+                        continue
+                    if kind.startswith("NonlinearCG"):
+                        # another loop than Descent.tla (no comparison of the energies, the point of a failed line search is returned with ERROR): the
+                        # clauses of the statement are evaluated directly - accepted steps lower the energy, only two verdicts (Wolfe: wolfe_bad above)
+                        last = ev[-1]
+                        if not last["monotone"]:
+                            ctx.violation(dict(kind="minimiser", clause="an accepted step increased", minimiser=kind), "%s on %s from %s: an accepted step increased the energy" % (kind, name, x0.tolist()), replay=dict(what="min", **meta))
+                        if last["status"] not in ("CONVERGED", "ERROR"):
+                            ctx.violation(dict(kind="minimiser", clause="status", minimiser=kind), "%s on %s: returned status %s" % (kind, name, last["status"]), replay=dict(what="min", **meta))
                         continue
                     mtr.append(ev)
                     mmeta.append(meta)
